@@ -441,6 +441,16 @@ func (r *runner) compareCall(what string, i int, fn string, args ...uint64) {
 			}
 		}
 	}
+	// the twin never closes or drops anything: none of its calls has a reason to fail
+	if strings.HasPrefix(want, "error: ") && !strings.HasPrefix(got, "error: ") {
+		r.res.Fail("behaviour-changed", "%s: the twin runtime, in which nothing is ever closed or dropped, failed with %s (this runtime returned %s)", what, want, got)
+		return
+	}
+	// as long as nothing was closed or dropped on this side, there is no reason for any call to fail
+	if strings.HasPrefix(got, "error: ") && !r.closedOrDropped && !strings.HasPrefix(want, "error: ") {
+		r.res.Fail("behaviour-changed", "%s failed with %s although nothing has been closed or dropped; the twin runtime returned %s", what, got, want)
+		return
+	}
 	// results known without the twin (a collection hits both runtimes alike, so a dangling record would
 	// corrupt both): slot 0 of A's table always holds A.inc, inc(x) = x + k
 	if !strings.HasPrefix(got, "error: ") {
